@@ -113,6 +113,15 @@ impl JobState {
         )
     }
 
+    fn is_running(&self) -> bool {
+        matches!(
+            self,
+            JobState::Always(JobStateAlways::Running)
+                | JobState::Output(JobStateOutput::Running)
+                | JobState::Ephemeral(JobStateEphemeral::Running(_))
+        )
+    }
+
     fn is_upstream_failure(&self) -> bool {
         match self {
             JobState::Always(JobStateAlways::FinishedUpstreamFailure) => true,
@@ -1467,6 +1476,15 @@ impl<T: PPGEvaluatorStrategy> PPGEvaluator<T> {
                                 JobState::Output(JobStateOutput::FinishedUpstreamFailure),
                                 self.gen
                             );
+                        }
+                        _ if j.state.is_finished()
+                            || j.state.is_running()
+                            || self.jobs_ready_to_run.contains(&j.job_id) =>
+                        {
+                            // the job was offered, started or done before the failure reached
+                            // it (through a job that had been validly skipped): it had its
+                            // inputs, the failure does not concern it.
+                            propagate = false;
                         }
                         _ => {
                             return Err(PPGEvaluatorError::InternalError(format!(
